@@ -35,6 +35,9 @@ pub enum SK {
     Q1Big,
     /// QoS 1 publish with a property the encoder must refuse (v5: 65536-byte content type; v3: as Q1LongTopic)
     Q1LongProp,
+    /// a send whose encoding fails after a field larger than a buffer page has been written
+    /// (v5: user properties of 60 000 and 66 000 bytes; v3 client: SUBSCRIBE with filters of 60 000 and 70 000 bytes; v3 server: as Q1LongTopic)
+    HugeThenTooLong,
     /// QoS 0 publish with a 24-byte payload (fills a small write buffer: write back-pressure engages)
     Q0Fill,
     /// QoS 1 publish through the non-blocking API (publish_ack_cb + send_at_least_once_no_block)
@@ -138,6 +141,20 @@ async fn run_sender_v5(sink: ntex_mqtt::v5::MqttSink, kind: SK, j: usize, app: A
         }
         SK::Q1LongTopic => {
             let r = sink.publish(bs(&"L".repeat(65_536))).send_at_least_once(by(&[tag(j)])).await;
+            push(match &r {
+                Ok(a) => ackstr(a),
+                Err(e) => format!("err:{e:?}"),
+            });
+        }
+        SK::HugeThenTooLong => {
+            let r = sink
+                .publish(bs("t"))
+                .properties(|p| {
+                    p.user_properties.push((bs("k"), bs(&"h".repeat(60_000))));
+                    p.user_properties.push((bs("k2"), bs(&"H".repeat(66_000))));
+                })
+                .send_at_least_once(by(&[tag(j)]))
+                .await;
             push(match &r {
                 Ok(a) => ackstr(a),
                 Err(e) => format!("err:{e:?}"),
@@ -433,6 +450,13 @@ async fn run_sender_v3(sink: ntex_mqtt::v3::MqttSink, kind: SK, j: usize, app: A
             } else {
                 push("not-ready".into());
             }
+        }
+        SK::HugeThenTooLong => {
+            let r = sink.subscribe().topic_filter(bs(&"y".repeat(60_000)), ntex_mqtt::QoS::AtMostOnce).topic_filter(bs(&"x".repeat(70_000)), ntex_mqtt::QoS::AtMostOnce).send().await;
+            push(match r {
+                Ok(a) => format!("ok:{a:?}"),
+                Err(e) => format!("err:{e:?}"),
+            });
         }
         SK::SubBig => {
             let r = sink.subscribe().topic_filter(bs(&"x".repeat(70_000)), ntex_mqtt::QoS::AtMostOnce).send().await;
@@ -1464,7 +1488,7 @@ impl Scenario for Out {
                     || (matches!(self.cfg.senders[j], SK::Stream { plan: 8, .. }) && self.id_overlap[j] && s.results.iter().all(|r| !r.starts_with("err") || r.contains("PacketIdInUse") || r.contains("StreamingCancelled")));
                 let expected_local_failure = during_stream
                     || bad_stream
-                    || matches!(self.cfg.senders[j], SK::Q1Big | SK::Q1BigId(_) | SK::SubBig)
+                    || matches!(self.cfg.senders[j], SK::Q1Big | SK::Q1BigId(_) | SK::SubBig | SK::HugeThenTooLong)
                     || (matches!(self.cfg.senders[j], SK::Q1Id(_)) && self.id_overlap[j] && s.results.iter().all(|r| !r.starts_with("err") || r.contains("PacketIdInUse")));
                 if s.started && !s.cancelled && !expected_local_failure && s.results.iter().any(|r| r.starts_with("err")) {
                     return Err(Violation::new(
